@@ -1,5 +1,6 @@
 SPECIFICATION Spec
 CONSTANTS MaxLen = 2
+ Reduced = FALSE
 
 INVARIANT ErrorIffDocumented
 INVARIANT NoPlaceholderLeft
